@@ -19,6 +19,7 @@ THEOREMS = [
     "Mesa.Legacy.C09_hex_tables_are_hexagonal",
     "Mesa.Legacy.C09_cached_neighbors_with_moves",
     "Mesa.Legacy.C09_hex_get_neighbors_exact",
+    "Mesa.Legacy.C09_neighbors_whatever_truth_value",
     "Mesa.Legacy.C09_neighbors_spec",
     "Mesa.Legacy.C09_get_neighbors_exact",
     "Mesa.Legacy.C09_network_spec",
@@ -61,8 +62,8 @@ def generate(rng, tier, count):
 def builtin_corpus():
     # core gives this hook no tier argument: read it from the command line
     if L.tier_from_argv() == "thorough":
-        return L.exhaustive_c09(6, (1, 2, 3, 4, 7), (1, 2, 3, 5)) + L.exhaustive_c09_net(5)
-    return L.exhaustive_c09(4, (1, 2, 3, 7), (1, 2, 3, 5)) + L.exhaustive_c09_net(4)
+        return L.truth_scenarios_c09() + L.exhaustive_c09(6, (1, 2, 3, 4, 7), (1, 2, 3, 5)) + L.exhaustive_c09_net(5)
+    return L.truth_scenarios_c09() + L.exhaustive_c09(4, (1, 2, 3, 7), (1, 2, 3, 5)) + L.exhaustive_c09_net(4)
 
 
 run_impl = L.run_impl
